@@ -109,6 +109,7 @@ type Model struct {
 	maxPool   int
 
 	viol     []simkit.Violation
+	track    bool // concurrent burst: keep the structural state, give no verdicts
 	aggKnown bool
 	pd       *donePending
 	// Coverage probes.
@@ -194,6 +195,9 @@ func NewModel(s *Sim) *Model {
 
 //go:norace
 func (m *Model) v(prop, rule, facts, msg string, op int) {
+	if m.track {
+		return
+	}
 	sig := prop + "|" + rule
 	if facts != "" {
 		sig += "|" + facts
@@ -659,6 +663,9 @@ func (m *Model) pickInvoke(ev Event) {
 		cm.rrEpoch, cm.rrN = m.epoch, m.poolSize()
 		m.rrInvoked++
 	}
+	if m.track {
+		return
+	}
 	// The expectation is computed against the state the pick finds, before its
 	// own effects (pool growth) are applied to the model.
 	ex := m.expectPick(c, cm)
@@ -836,7 +843,13 @@ func (m *Model) pickReturn(ev Event) {
 	if res.Kind == ResPanic {
 		return
 	}
-	if cm.ex == nil {
+	if cm.ex == nil || m.track {
+		// structural bookkeeping only
+		if placedCh >= 0 {
+			cm.ch = placedCh
+			cm.placed = true
+			m.chans[placedCh].inflight++
+		}
 		return
 	}
 	ex := *cm.ex
